@@ -6,6 +6,19 @@ BASELINE = "cd /repo && env -u URLLIB3_VERIF /venv/bin/python -m pytest -ra -q -
 
 # id -> (category, technique, level text, level note, design ref)
 CHECKS = {
+    "C01": ("model_checking",
+            "explicit-state BFS by replay over the real pool x deviation-bounded fault vectors (simnet)",
+            "Per pool configuration (kind x maxsize x block x retries x preload/release mode) a breadth-first search over caller operations, "
+            "each combined with every vector of environment answers within the deviation bound at every I/O step of every attempt; "
+            "slot/duplicate/lease/leak/open-count/exception-class invariants are evaluated after every transition on the real objects.",
+            "simnet socket stand-in (close()/makefile() release semantics), stub TLS for https kinds, environment answer menus listed in the evidence; bounds: deviation and depth per pass as recorded.",
+            "DESIGN.md §3 C01"),
+    "C03": ("model_checking",
+            "exhaustive enumeration of request histories x server behaviours x caller behaviours on the real pool (simnet), tagged-payload oracle",
+            "All histories of 2 (thorough: 3) requests over a step alphabet of method x server behaviour x segmentation x caller behaviour on 6 pool shapes; "
+            "every byte ever delivered for request i must be a prefix of payload(i); unclean sockets answer with poisoned payloads.",
+            "simnet stand-in for sockets and for the readiness poll; alphabet as listed in mc/checks/c03.py.",
+            "DESIGN.md §3 C03"),
     "C16": ("model_checking",
             "explicit-state BFS over real HTTPHeaderDict objects vs reference multimap",
             "All operation sequences to depth 4 (quick) / 5 (thorough) over a 160-operation alphabet are executed on the real class; "
